@@ -55,7 +55,8 @@ pub fn gen_profile(rng: &mut Rng, focus: Focus, thorough: bool) -> Profile {
     let steps_pool: &[usize] = if thorough { &[1, 2, 3, 12, 12, 24, 365] } else { &[1, 2, 3, 12] };
     let mut steps = *rng.pick(steps_pool);
     if thorough && rng.chance(0.002) {
-        steps = 8760;
+        // hourly series; now and then a leap year or half-hourly data (more than 8760 values)
+        steps = *rng.pick(&[8760, 8760, 8760, 8784, 17520]);
     }
     let mut n_systems = match rng.below(10) {
         0..=2 => 1,
@@ -199,10 +200,10 @@ const PLAIN_WORDS: [&str; 15] = [
     "consumo del vector EAMBIENTE", "Vector energético", "id, vector, tipo", "BdC 1", "Caldera", "PV", "ACS", "Equipo de calefacción COP 3", "n_gen=2.5 n_d+e+c=0.88", "Paneles solares térmicos 2m2",
     "Producción fotovoltaica in situ", "Energía entregada", "SISTEMA SECUNDARIO FC_P01_E01  ventiladores", "x", "Demanda anual",
 ];
-const HOSTILE_BITS: [&str; 48] = [
+const HOSTILE_BITS: [&str; 55] = [
     "<", ">", "&", "\"", "'", "\\", "#", ",", ";", ":", "é", "ñ", "€", "日本", "\u{1F600}", "&amp;", "<b>", "]]>", "<!--", "--", "%s",
     "\t", "I&D;", "AT&T;", "&#0;", "&#xZZ;", "&#12", "&lt", "&;", "&amp;amp;", "&quot;x&quot;", "</Comentario>", "<![CDATA[", "?>", "\u{feff}",
-    "\u{fffd}", "[2 uds. de 8 kW]", "rango [35 - 45]", "[ -1, 2 ]", "{\"a\": [1, 2]}", "\"k\": 1,", "[", "]", "{", "}", "\\n", "\\u0000", "a\tb",
+    "\u{fffd}", "[2 uds. de 8 kW]", "rango [35 - 45]", "[ -1, 2 ]", "{\"a\": [1, 2]}", "\"k\": 1,", "[", "]", "{", "}", "\\n", "\\u0000", "a\tb", "eﬁciencia", "ſ", "ı", "ŉ", "ǰ", "ß", "İ",
 ];
 /// Characters that no XML 1.0 document can contain (counted with the C0 control-character class).
 const CONTROL_BITS: [&str; 8] = ["\u{1}", "\u{8}", "\u{b}", "\u{1f}", "\u{fffe}", "\u{ffff}", "\u{0}", "\u{c}"];
@@ -538,7 +539,11 @@ pub fn gen_building(rng: &mut Rng, p: &Profile) -> Building {
     // --- the documented exclusion tag on an ambient-energy use for DHW
     if rng.chance(0.03) {
         if let Some(l) = b.lines.iter_mut().find(|l| matches!(&l.kind, Kind::Used { service, carrier } if carrier == "EAMBIENTE" && service == "ACS")) {
-            l.comment = format!("{} CTEEPBD_EXCLUYE_SCOP_ACS", if l.comment.is_empty() { "BdC" } else { l.comment.as_str() }).trim().to_string();
+            // now and then lower case, or next to characters whose upper/lower case form has another length in UTF-8
+            let tag = if rng.chance(0.15) { "cteepbd_excluye_scop_acs" } else { "CTEEPBD_EXCLUYE_SCOP_ACS" };
+            let odd = ["ﬁ", "ſ", "ı", "ŉ", "ǰ", "ß", "İ", "→", "é"];
+            let (pre, post) = if rng.chance(0.3) { (*rng.pick(&odd), if rng.chance(0.5) { *rng.pick(&odd) } else { "" }) } else { (" ", "") };
+            l.comment = format!("{}{}{}{}", if l.comment.is_empty() { "BdC" } else { l.comment.as_str() }, pre, tag, post).trim().to_string();
         }
     }
 
